@@ -436,6 +436,26 @@ def _roundtrip(b, pt, sc, G, s, case, generated):
                 if twice == [(pid, rep, end, sorted(ferm, key=repr)) for (pid, rep, end, ferm) in c]:
                     ccase = dict(case, only_difference_is_a_fermata_on_the_barline_between_two_measures_read_twice=True)
             b.case("xml/same_" + clause, a == c, ccase, _first_difference(a, c))
+    if generated:
+        # a constant direction saved without an end ends, after loading, where the next direction of its family starts (all directions
+        # that start together end together), the last ones at the end of the part - the documented rule of set_end_times
+        fams = (sc.ConstantLoudnessDirection, sc.ConstantTempoDirection, sc.ConstantArticulationDirection)
+        bad = None
+        for p1, p2 in zip(s.parts, s2.parts):
+            for fam in fams:
+                saved = sorted(p1.iter_all(fam, include_subclasses=True), key=lambda d: d.start.t)
+                loaded = list(p2.iter_all(fam, include_subclasses=True))
+                starts = sorted({d.start.t for d in saved})
+                for d in saved:
+                    if d.end is not None:
+                        continue
+                    later = [t for t in starts if t > d.start.t]
+                    want_end = later[0] if later else p2.last_point.t
+                    twins = [x for x in loaded if type(x) is type(d) and x.text == d.text and x.start.t == d.start.t and x.staff == d.staff]
+                    if twins and not any(x.end is not None and x.end.t == want_end for x in twins):
+                        bad = bad or "%s %r at %d (staff %r) loaded with end %r, the next direction of its family starts at %r" % (
+                            type(d).__name__, d.text, d.start.t, d.staff, [x.end.t if x.end is not None else None for x in twins], want_end)
+        b.case("xml/open_ended_directions_end_at_the_next_of_their_family", bad is None, case, bad or "")
     # independent reader
     ok, den = b.guard("xml/independent_reader", case, lambda: denote(f1))
     if ok:
